@@ -1165,6 +1165,14 @@ def rule_lines_joined_with_newline(repo: Repo, rep, rule: str = "R1.20") -> None
 
 
 # ------------------------------------------------------------------------------------------------ R1.21 a field never takes the name of an import the class body uses
+def _r121_guarded_by(fn_node: ast.AST, test: ast.AST) -> list[ast.stmt]:
+    """Statements executed when `test` (the test of an `if`, or part of it) holds."""
+    for n in ast.walk(fn_node):
+        if isinstance(n, ast.If) and any(x is test for x in ast.walk(n.test)):
+            return list(n.body)
+    return []
+
+
 def rule_fields_do_not_shadow_imports(repo: Repo, rep, rule: str = "R1.21") -> None:
     """In a class body `date: date | None = None` binds the name `date` to None; the annotation of the next `date`-typed field is then
     `None | None` - TypeError while the models package is imported (`field = None` breaks `field(default_factory=list)` the same way).
@@ -1187,6 +1195,16 @@ def rule_fields_do_not_shadow_imports(repo: Repo, rep, rule: str = "R1.21") -> N
                     nm = const_str(c.args[1])
                     if nm and nm.islower() and nm.isidentifier():
                         imported.setdefault(nm, f"{mod.relpath}:{c.lineno}")
+                    elif nm is None and isinstance(c.args[1], ast.Name):
+                        # `if t in ("date", "datetime", "time"): add_import("datetime", t)`: the names the variable is tested against
+                        for g_ in ast.walk(f_.node):
+                            if isinstance(g_, ast.Compare) and isinstance(g_.left, ast.Name) and g_.left.id == c.args[1].id and len(g_.ops) == 1 \
+                                    and isinstance(g_.ops[0], (ast.In, ast.Eq)) and any(c is x for b_ in _r121_guarded_by(f_.node, g_) for x in ast.walk(b_)):
+                                cands = g_.comparators[0].elts if isinstance(g_.comparators[0], (ast.Tuple, ast.List, ast.Set)) else [g_.comparators[0]]
+                                for e_ in cands:
+                                    n2 = const_str(e_)
+                                    if n2 and n2.islower() and n2.isidentifier():
+                                        imported.setdefault(n2, f"{mod.relpath}:{c.lineno}")
         # registrations driven by a table of the module: `{"date": ("datetime", "date"), ...}` handed to add_import(*entry)
         for st_ in mod.tree.body:
             if isinstance(st_, (ast.Assign, ast.AnnAssign)) and isinstance(getattr(st_, "value", None), ast.Dict) and any(
@@ -1419,7 +1437,8 @@ def _r126_function(fn_node: ast.AST, helpers: dict[str, ast.AST], fields_consume
                 registered |= _r126_names(_r126_consts(fn_node, a) or set())
         elif fname in helpers and fname != getattr(fn_node, "name", None):
             # a helper of the same module that registers what it is given
-            wildcard = True
+            for a in list(c.args) + [k.value for k in c.keywords]:
+                registered |= _r126_names(_r126_consts(fn_node, a) or set())  # (a value this rule cannot enumerate creates no obligation either)
     sites = 0
     missing: list[tuple[str, ast.AST]] = []
     for c in ast.walk(fn_node):
